@@ -61,12 +61,17 @@ extern uint32_t g_ps_crun, g_ps_cfinal;     /* running value / value after the w
 #define PM_CELL_ADDR() ((uint64_t)g_a < g_ps_lo || (uint64_t)g_a >= g_ps_dlo)
 #define PM_IN(a, start, len) ((uint64_t)(a) >= (uint64_t)(start) && (uint64_t)(a) - (uint64_t)(start) < (uint64_t)(len))
 
+/* PM_DELIVER: the havocked destination octet IS the observed medium octet
+ * (proof: constrains the arbitrary value just delivered; native: stores it) */
 #if VERIF_IS_NATIVE
 #define PM_HAVOC(p, n) memset((p), 0xA5, (n))
+#define PM_DELIVER(lv, v) ((lv) = (v))
 #else
 #define PM_HAVOC(p, n) __CPROVER_havoc_slice((p), (n))
+#define PM_DELIVER(lv, v) __CPROVER_assume((lv) == (v))
 #endif
 
+#define PM_RD(k, f) { if ((uint64_t)(k) < (uint64_t)r) PM_DELIVER(d[k], f); }
 static size_t st_medium_read(void *dst, uint32_t address, size_t n)
 {
   uint8_t *d = (uint8_t *)dst;
@@ -84,15 +89,21 @@ static size_t st_medium_read(void *dst, uint32_t address, size_t n)
   g_ps_nrd = PM_SAT3(g_ps_nrd);
   if (r > 0) {
     PM_HAVOC(d, r);
-    if (g_ps_lo + 0 < g_ps_dlo && PM_IN(g_ps_lo + 0, address, r)) d[g_ps_lo + 0 - address] = g_ps_f0;
-    if (g_ps_lo + 1 < g_ps_dlo && PM_IN(g_ps_lo + 1, address, r)) d[g_ps_lo + 1 - address] = g_ps_f1;
-    if (g_ps_lo + 2 < g_ps_dlo && PM_IN(g_ps_lo + 2, address, r)) d[g_ps_lo + 2 - address] = g_ps_f2;
-    if (g_ps_lo + 3 < g_ps_dlo && PM_IN(g_ps_lo + 3, address, r)) d[g_ps_lo + 3 - address] = g_ps_f3;
-    if (PM_CELL_ADDR() && PM_IN(g_a, address, r)) d[(uint64_t)g_a - address] = g_ps_cell;
+    /* the delivered octets are arbitrary except at the observed positions */
+    if ((uint64_t)address < g_ps_dlo) {
+      /* the read starts inside the checksum field, at its octet j */
+      const uint64_t j = (uint64_t)address - g_ps_lo;
+      if (j == 0) { PM_RD(0, g_ps_f0) if (g_ps_lo + 1 < g_ps_dlo) PM_RD(1, g_ps_f1) if (g_ps_lo + 2 < g_ps_dlo) PM_RD(2, g_ps_f2) if (g_ps_lo + 3 < g_ps_dlo) PM_RD(3, g_ps_f3) }
+      else if (j == 1) { PM_RD(0, g_ps_f1) if (g_ps_lo + 2 < g_ps_dlo) PM_RD(1, g_ps_f2) if (g_ps_lo + 3 < g_ps_dlo) PM_RD(2, g_ps_f3) }
+      else if (j == 2) { PM_RD(0, g_ps_f2) if (g_ps_lo + 3 < g_ps_dlo) PM_RD(1, g_ps_f3) }
+      else if (j == 3) { PM_RD(0, g_ps_f3) }
+    }
+    if (PM_CELL_ADDR() && PM_IN(g_a, address, r)) PM_DELIVER(d[(uint64_t)g_a - address], g_ps_cell);
   }
   return r;
 }
 
+#define PM_WR(k, f) { if ((uint64_t)(k) < (uint64_t)r) (f) = s[k]; }
 static size_t st_medium_write(uint32_t address, const void *src, size_t n)
 {
   const uint8_t *s = (const uint8_t *)src;
@@ -113,10 +124,14 @@ static size_t st_medium_write(uint32_t address, const void *src, size_t n)
   else if (g_ps_nwr == 1) { g_ps_w1a = address; g_ps_w1n = n; g_ps_w1r = r; }
   g_ps_nwr = PM_SAT3(g_ps_nwr);
   if (r > 0) {
-    if (g_ps_lo + 0 < g_ps_dlo && PM_IN(g_ps_lo + 0, address, r)) g_ps_f0 = s[g_ps_lo + 0 - address];
-    if (g_ps_lo + 1 < g_ps_dlo && PM_IN(g_ps_lo + 1, address, r)) g_ps_f1 = s[g_ps_lo + 1 - address];
-    if (g_ps_lo + 2 < g_ps_dlo && PM_IN(g_ps_lo + 2, address, r)) g_ps_f2 = s[g_ps_lo + 2 - address];
-    if (g_ps_lo + 3 < g_ps_dlo && PM_IN(g_ps_lo + 3, address, r)) g_ps_f3 = s[g_ps_lo + 3 - address];
+    if ((uint64_t)address < g_ps_dlo) {
+      /* the write starts inside the checksum field, at its octet j */
+      const uint64_t j = (uint64_t)address - g_ps_lo;
+      if (j == 0) { PM_WR(0, g_ps_f0) if (g_ps_lo + 1 < g_ps_dlo) PM_WR(1, g_ps_f1) if (g_ps_lo + 2 < g_ps_dlo) PM_WR(2, g_ps_f2) if (g_ps_lo + 3 < g_ps_dlo) PM_WR(3, g_ps_f3) }
+      else if (j == 1) { PM_WR(0, g_ps_f1) if (g_ps_lo + 2 < g_ps_dlo) PM_WR(1, g_ps_f2) if (g_ps_lo + 3 < g_ps_dlo) PM_WR(2, g_ps_f3) }
+      else if (j == 2) { PM_WR(0, g_ps_f2) if (g_ps_lo + 3 < g_ps_dlo) PM_WR(1, g_ps_f3) }
+      else if (j == 3) { PM_WR(0, g_ps_f3) }
+    }
     if (PM_CELL_ADDR() && PM_IN(g_a, address, r)) g_ps_cell = s[(uint64_t)g_a - address];
   }
   return r;
